@@ -9,7 +9,7 @@ Statically decided clauses (DESIGN §4 C17):
   5. end-of-data is sticky: failing reads/writes change nothing; adapters hold a Fuse    (R1)
   6. Reverse<B> and the provided (default) query methods are pure delegations            (R4)
 """
-from vlib import facts, sym, dbm as dbmmod, rules
+from vlib import effects, facts, sym, dbm as dbmmod, rules
 from vlib.facts import callee
 from vlib.report import DISCHARGED
 
@@ -590,6 +590,75 @@ def check_true_answer_unused(ctx, F):
     ctx.extra['of_which_branch_on_the_answer'] = n_br
 
 
+def check_maybe_full_sources(ctx, F):
+    """WriteWords::maybe_full() may answer `false` only when the next write certainly succeeds (the default answers `true`).
+    For the buffer-backed sinks the rule puts the answer next to the refusing exit of the *same impl's* write: the state in
+    which write() refuses must be one in which maybe_full() says `true`.  An override that asks the wrapped value (the forward
+    cursor inside a reversed one) answers for the wrong direction."""
+    n = 0
+    for b in F.bodies:
+        if b.promoted is not None or b.name != 'maybe_full' or b.impl_trait != 'backends::WriteWords' or '::tests::' in b.defpath or b.dk != 'AssocFn':
+            continue
+        ops = [o for o in F.bodies if o.promoted is None and o.name == 'write' and o.impl_trait == 'backends::WriteWords' and o.impl_trait_ref == b.impl_trait_ref]
+        base = cursor_base(ops[0]) if ops else None
+        if not ops or base is None:
+            continue          # Vec / SmallVec (never full) and forwarding wrappers are covered by the delegation rules
+        n += 1
+        ctx.touch(b)
+        key = 'R6/maybe-full-source/' + b.defpath
+        role = 'maybe_full() says `true` in every state in which write() refuses'
+        _, mp = rules.evaluate(b)
+        rm = single_return(mp or [])
+        oev, opaths = rules.evaluate(ops[0])
+        if rm is None or not opaths:
+            ctx.unresolved('R6', role, b.defpath, 'maybe_full has several paths / write not evaluated', key=key)
+            continue
+        answer = rm.ret
+
+        def resolve(t):
+            # a call of a trait method on `self` resolves to the impl for this very self type
+            def f(n_):
+                if n_ and n_[0] == 'call' and n_[3] is None and isinstance(n_[1], str) and n_[1].startswith('backends::') and n_[2] and n_[2][0] in (('in', (1, 'deref')), ('arg', 1)):
+                    tr, meth = n_[1].rsplit('::', 1)
+                    cands = [x for x in F.bodies if x.promoted is None and x.name == meth and x.impl_trait == tr and x.impl_self is not None and b.impl_self is not None and F.ty_s(x.impl_self) == F.ty_s(b.impl_self)]
+                    if len(cands) == 1:
+                        _, pp = rules.evaluate(cands[0])
+                        r1 = single_return(pp or [])
+                        if r1 is not None and not any(e['kind'] == 'call' and e.get('uid') is not None for e in r1.events):
+                            return r1.ret
+                    elif not cands:
+                        # provided method of the trait (e.g. is_full = space_left() == 0)
+                        prov = [x for x in F.bodies if x.promoted is None and x.name == meth and x.trait == tr and x.impl is None]
+                        if len(prov) == 1:
+                            _, pp = rules.evaluate(prov[0])
+                            r1 = single_return(pp or [])
+                            if r1 is not None:
+                                return r1.ret
+                return None
+            return effects.rebuild(t, f)
+        for _ in range(4):
+            answer = resolve(rules.inline_pure(F, answer))
+        bad = None
+        n_fail = 0
+        for r in opaths:
+            if r.end != 'return' or rules.ret_shape(r.ret)[0] != 'Err':
+                continue
+            n_fail += 1
+            d = dbmmod.DBM()
+            preds = list(r.preds) + [(answer, 0, None)]      # the refusing state of write() together with "maybe_full() == false"
+            dbmmod.harvest(d, preds, extra=inv_extra(base))
+            d.close()
+            if not d.inconsistent():
+                bad = 'write() refuses in a state in which maybe_full() (= %s) can be false: the sink then promises room it does not have (the answer is taken from the wrapped cursor, whose free space is at the other end of the buffer)' % sym.show(answer)[:90]
+        if bad:
+            ctx.bad('R6', role, b.defpath, bad, key=key, loc=rules.loc(b))
+        elif not n_fail:
+            ctx.unresolved('R6', role, b.defpath, 'write() has no refusing exit', key=key)
+        else:
+            ctx.ok('R6', role, b.defpath, 'answer %s is true on all %d refusing exit(s) of write()' % (sym.show(answer)[:60], n_fail), key=key)
+    ctx.extra['maybe_full_overrides_of_buffer_sinks'] = n
+
+
 def check_extend_stops(ctx, F):
     """`extend_from_iter` hands the words to `write` one by one and stops at the first refusal: after a refused word no
     further word reaches the sink (a sink whose failure is transient would otherwise receive a stream with a hole), and the
@@ -859,6 +928,7 @@ def run(ctx):
         check_maybe_exhausted_sources(ctx, F)
         check_true_answer_unused(ctx, F)
         check_extend_stops(ctx, F)
+        check_maybe_full_sources(ctx, F)
         check_into_reversed(ctx, F)
         check_sticky_and_delegation(ctx, F)
     ctx.assume('SafeBuf contract: as_ref()/as_mut() of a SafeBuf never shrink (unsafe trait, implementors are std types only; checked under C20)')
